@@ -112,7 +112,7 @@ func Load(dirs []string) (*Loaded, error) {
 	}
 	// pure-Go generic helper packages are loaded with syntax so that their
 	// (instantiated) bodies can be interpreted like repo code
-	patterns = append(patterns, "slices", "cmp")
+	patterns = append(patterns, "slices", "cmp", "bytes")
 	cfg := &packages.Config{
 		Mode:    packages.LoadSyntax | packages.NeedModule,
 		Dir:     repoDir,
